@@ -15,14 +15,19 @@ Fixpoint nosec_get (m : nosec_map) (l : Z) : option (list pstr) :=
   | (k, v) :: t => if Z.eqb k l then Some v else nosec_get t l
   end.
 
-(* utils.get_nosec: first line of the span that carries a nosec comment *)
-Fixpoint get_nosec (m : nosec_map) (lr : list Z) : option (list pstr) :=
-  match lr with
-  | [] => None
-  | l :: t => match nosec_get m l with Some s => Some s | None => get_nosec m t end
-  end.
-
 Definition union_ids (a b : list pstr) : list pstr := fold_left (fun acc x => set_add x acc) b a.
+
+(* utils.get_nosec: every nosec comment of the span counts; a blanket comment ([]) wins at once *)
+Fixpoint get_nosec_acc (m : nosec_map) (lr : list Z) (found : option (list pstr)) : option (list pstr) :=
+  match lr with
+  | [] => found
+  | l :: t => match nosec_get m l with
+              | Some [] => Some []
+              | Some s => get_nosec_acc m t (Some (match found with Some f => union_ids f s | None => s end))
+              | None => get_nosec_acc m t found
+              end
+  end.
+Definition get_nosec (m : nosec_map) (lr : list Z) : option (list pstr) := get_nosec_acc m lr None.
 
 (* _get_nosecs_from_contexts *)
 Definition nosecs_from_contexts (m : nosec_map) (ctx_lr : list Z) (res_lineno : option Z)
@@ -30,6 +35,7 @@ Definition nosecs_from_contexts (m : nosec_map) (ctx_lr : list Z) (res_lineno : 
   let base := match res_lineno with Some l => nosec_get m l | None => None end in
   let cont := get_nosec m ctx_lr in
   match base, cont with
+  | Some [], _ | _, Some [] => Some []
   | None, None => None
   | Some b, None => Some b
   | None, Some c => Some c
